@@ -598,11 +598,30 @@ func checkC17(c *Ctx) {
 				key := fmt.Sprintf("outgoing topic #%d (packet built in %s)", i+1, c.fname(pk.alloc.Parent()))
 				tv := pk.field("Topic")
 				cv, isCall := core.Strip(tv).(*ssa.Call)
-				if tv == nil || !isCall || !core.CallOf(cv).Is(trim) {
+				var recvArg ssa.Value
+				if isCall && core.CallOf(cv).Is(trim) {
+					recvArg = cv.Call.Args[0]
+				} else if isCall {
+					// a wrapper of the package (outgoingTopic(session, topic) = session.TrimMountPoint(topic)): the
+					// session is the argument bound to the parameter the wrapper trims with
+					if g := cv.Call.StaticCallee(); g != nil && g.Pkg != nil && c.P.IsModPkg(g.Pkg.Pkg) && len(g.Blocks) > 0 {
+						if rvs := returnValues(g); len(rvs) == 1 {
+							if inner, ok := core.Strip(rvs[0]).(*ssa.Call); ok && core.CallOf(inner).Is(trim) {
+								if prm, ok := core.Strip(inner.Call.Args[0]).(*ssa.Parameter); ok && prm.Parent() == g {
+									if k := paramIdx(prm); k >= 0 && k < len(cv.Call.Args) {
+										recvArg = cv.Call.Args[k]
+										c.R.Fn(c.fname(g))
+									}
+								}
+							}
+						}
+					}
+				}
+				if tv == nil || recvArg == nil {
 					ru2.Fail(key, c.whereI(pk.site), "the outgoing packet's topic is not TrimMountPoint(…) of the stored topic: the client sees the internal prefix")
 					continue
 				}
-				recv := deepStrip(cv.Call.Args[0])
+				recv := deepStrip(recvArg)
 				okRecv := lookup != nil && (recv == lookup.sess || recv == lookup.get.Value())
 				// the packet goes to that same recipient: the arming call's session argument, or the Writer() the direct write uses
 				okWriter := false
